@@ -92,4 +92,44 @@ class C18:
         return "(code (%s))" % c.term
 
 
+from c19 import C19Real
+
+
+class C18Retry(C19Real):
+    """every announce names the torrent and the client, the retries after a failed one included: the real tracker task
+    against a loopback tracker that fails first (the scenarios of C19Real); the tracker compares the request targets it reads"""
+    id = "C18"
+    model_targets = ["Pack.vo", "Corr/C18.vo"]
+    coq_header = "From Rdest Require Import Base BCodec Consts Url Corr.C18.\nOpen Scope N_scope.\n"
+    corr_name = "request targets across retries"
+    classes = {}
+    rule = ""
+
+    def corpus(self):
+        return [self.mkreal(["500", "garbage"], self.BODIES[1], "retry-targets"), self.mkreal(["failure"], self.BODIES[0], "retry-targets")]
+
+    def gen(self, rng, tier):
+        k = {"quick": 10, "thorough": 100, "search": 30}.get(tier, 10)
+        out = []
+        for _ in range(k):
+            n = rng.choice([1, 1, 2, 3])
+            script = [rng.choice([x for x in self.OUTCOMES if x != "refused"]) for _ in range(n)]
+            out.append(self.mkreal(script, rng.choice(self.BODIES), "retry-targets"))
+        return out
+
+    def coq_case(self, c, out):
+        t = c.line.split()
+        script = [] if t[1] == "-" else t[1].split(",")
+        if out.strip() == "SKIP":
+            c.nontrivial = False
+            return "CRetry 0 1 true"
+        f = out.split()
+        o = dict(zip(f[0::2], f[1::2]))
+        return "CRetry %d %s %s" % (len(script), o["SEEN"], "true" if o["SAME"] == "1" else "false")
+
+    def model_term(self, c):
+        return "true"
+
+
 PROP = C18()
+PROP.parts = [PROP, C18Retry()]
